@@ -259,8 +259,8 @@ Print Assumptions generate_stream_agree_with_default_checker.
 Theorem frames_concatenating_to_invoke_answer_are_exact :
   forall ids em results,
     concat_pos ids em = Ok (map Some results) ->
-    tout_results (TFrames ids em) = Ok results
-    /\ forall i, tout_direct i (TFrames ids em) = nth_error results i.
+    tout_results (TFrames ids em None) = Ok results
+    /\ forall i, tout_direct i (TFrames ids em None) = Ok (nth_error results i).
 Proof. exact frames_exact. Qed.
 Print Assumptions frames_concatenating_to_invoke_answer_are_exact.
 
@@ -407,11 +407,11 @@ Definition ex_tn (calls : list call) : res (list tmsg) :=
   Ok (map (fun c => (c_name c ++ "(" ++ c_args c ++ ")", c_id c)) calls).
 (* the same tools streamed: two frames per call (the name, then the parenthesised arguments - an
    empty frame content when a piece is empty), the calls' streams interleaved round-robin *)
-Definition ex_tns (calls : list call) : res (list string * list emitted) :=
+Definition ex_tns (calls : list call) : res (list string * list emitted * option N) :=
   let idx := combine (seq 0 (List.length calls)) calls in
   let names := map (fun p => (fst p, c_name (snd p))) idx in
   let args := map (fun p => (fst p, ("(" ++ c_args (snd p) ++ ")")%string)) idx in
-  Ok (map c_id calls, (names ++ args)%list).
+  Ok (map c_id calls, (names ++ args)%list, None).
 Definition ex_rd (n : string) : bool := String.eqb n "final".
 Definition ex_script : list step :=
   [ SMsg "" [mkCall "a0" "search" "x"; mkCall "a1" "calc" "y"]
@@ -443,7 +443,7 @@ Proof.
       [| |intro H; contradiction H; reflexivity];
       (intros _; unfold tools_exact; cbn [ex_tn]; eexists; eexists; split; [reflexivity|];
        match goal with
-       | |- tout_results (TFrames ?ids ?em) = Ok ?rs /\ _ =>
+       | |- tout_results (TFrames ?ids ?em None) = Ok ?rs /\ _ =>
            destruct (frames_exact ids em rs ltac:(vm_compute; reflexivity)) as [A B]; split; [exact A|intros i _; apply B]
        end). }
   destruct step_exact_nonvacuous as [S1 [S2 _]].
@@ -478,6 +478,20 @@ Example looping_nonvacuous :
   Forall (looping ex_tn ex_rd false) (firstn 2 ex_script)
   /\ t_out (agent_run ex_tn ex_tns ex_rd false (fun h => h) (fun _ => true) exact_checker Stream 4 (firstn 2 ex_script) ex_input) = Failed EStepLimit.
 Proof. vm_compute. split; [repeat constructor; try discriminate; eexists; reflexivity | reflexivity]. Qed.
+(* streams are lazy: a tool whose stream fails AFTER it was opened (outside [tools_exact]) lets the
+   tools node return; the failure reaches the agent in the next superstep (the chat node's
+   pre-processing concatenates the stream) or its caller (return-directly).  So a Stream run at its
+   step limit ends with the step-limit error where Generate ends with the tool's error; with one
+   more step both end with the tool's error *)
+Example late_stream_failure_is_met_one_node_later :
+  let c := mkCall "a0" "search" "x" in
+  let script := [SMsg "" [c] [whole_chunk "" [c]]] in
+  let tn := fun _ : list call => @Err (list tmsg) 100%N in
+  let tns := fun calls : list call => Ok (map c_id calls, [(0, "par")]%nat, Some 100%N) in
+  let run := fun md n => t_out (agent_run tn tns ex_rd false (fun h => h) (fun _ => true) exact_checker md n script ex_input) in
+  run Generate 2 = Failed (ETools 100) /\ run Stream 2 = Failed EStepLimit
+  /\ run Generate 3 = Failed (ETools 100) /\ run Stream 3 = Failed (ETools 100).
+Proof. vm_compute. repeat split; reflexivity. Qed.
 (* the tools node of the examples answers in call order; the future's messages of the example run *)
 Example tn_in_order_nonvacuous : tn_in_order ex_tn.
 Proof. intros calls results H. inversion H. rewrite map_map. reflexivity. Qed.
